@@ -20,6 +20,7 @@ import (
 	"fmt"
 	"hash"
 	"io"
+	"math/big"
 	"os"
 	"reflect"
 
@@ -35,7 +36,8 @@ type entry struct {
 }
 
 type vector struct {
-	Params []int   `json:"params"`
+	Params  []int    `json:"params"`
+	SParams []string `json:"sparams"`
 	Draws  []entry `json:"draws"`
 }
 
@@ -108,7 +110,7 @@ func (replayReader) Read(p []byte) (int, error) {
 			b = b[len(b)-len(p):]
 		}
 		copy(p[len(p)-len(b):], b)
-		randLog = append(randLog, append([]byte{}, p...))
+		randIntLog = append(randIntLog, append([]byte{}, p...))
 		return len(p), nil
 	}
 	e := next("rand")
@@ -121,7 +123,10 @@ func (replayReader) Read(p []byte) (int, error) {
 	return len(p), nil
 }
 
-var randLog [][]byte
+var randLog, randIntLog [][]byte
+
+// RandIntLog returns, as big-endian octet strings, the values crypto/rand.Int has returned so far.
+func RandIntLog() [][]byte { return randIntLog }
 
 // RandLog returns the octets delivered by every successful read of the random source so far.
 func RandLog() [][]byte { return randLog }
@@ -175,6 +180,24 @@ func Param(i int) int {
 		panic("verifrt: no replay vector")
 	}
 	return vec.Params[i]
+}
+
+// SParam returns the i-th string parameter of the job (e.g. an oracle value computed by the runner).
+func SParam(i int) string {
+	if vec == nil {
+		panic("verifrt: no replay vector")
+	}
+	return vec.SParams[i]
+}
+
+// ModExpBytes is the reference modular exponentiation base^exp mod m over big-endian octet strings,
+// left-padded to n octets: the same (uninterpreted) function the executor substitutes for big.Int.Exp.
+func ModExpBytes(base, exp, m []byte, n int) []byte {
+	r := new(big.Int).Exp(new(big.Int).SetBytes(base), new(big.Int).SetBytes(exp), new(big.Int).SetBytes(m))
+	out := make([]byte, n)
+	b := r.Bytes()
+	copy(out[n-len(b):], b)
+	return out
 }
 
 func U8() uint8   { return uint8(next("u8").Val) }
@@ -384,7 +407,7 @@ func Reset() {
 	Hits = map[string]int{}
 	faultAt = -1
 	randCnt = 0
-	randLog = nil
+	randLog, randIntLog = nil, nil
 }
 
 // SpyHash wraps a keyed hash and records what is written to it and what it returns (native replay of
